@@ -10,12 +10,48 @@ import (
 )
 
 func init() {
+	vk.Register("C19", "huge", runHuge)
 	vk.Register("C19", "reuse", runReuse)
 	vk.Register("C19", "det", runDet)
 	vk.Register("C19", "stat", runStat)
 }
 
 func TestReplay(t *testing.T) { vk.ReplayMain(t) }
+
+// TestC19Huge: buffers of 2^17 .. 2^20 elements, filled, Reset and reused.
+func TestC19Huge(t *testing.T) {
+	h := vk.Start(t, "C19", "huge")
+	slot := h.Slot()
+	tl := vk.NewTally()
+	rng := h.RNG("huge")
+	sizes := []int{1<<18 + 2, 300000, 1<<17 + 1, 1<<19 + 3, 1 << 20, 1<<18 - 1, 1 << 18, 1<<18 + 1}
+	n := h.Pick(5, 80)
+	for i := 0; i < n && !h.Failed(); i++ {
+		size := sizes[i%len(sizes)]
+		c := HugeCase{Size: size, After: 3 + rng.Intn(2000)}
+		switch i % 3 {
+		case 0:
+			c.Fill = size - 1 - rng.Intn(8)
+		case 1:
+			c.Fill = size/2 + rng.Intn(size/2)
+		default:
+			c.Fill = size + rng.Intn(size)
+		}
+		o := &vk.Obs{}
+		slot.Enter(c)
+		msg := vk.Guard(func() string { return runHuge(c, o) })
+		slot.Leave()
+		if msg != "" {
+			p := h.Fail(c, msg)
+			t.Fatalf("VK-VIOLATION property=C19 leg=huge replay=%s\n%s", p, msg)
+		}
+		tl.AddObs(o)
+		if i%7 == 0 {
+			h.Sample(c, o.NT)
+		}
+	}
+	h.MergeTally(tl)
+}
 
 // TestC19Reuse: repeated runs through Reset on one counter.
 func TestC19Reuse(t *testing.T) {
